@@ -1,14 +1,28 @@
 #!/usr/bin/env python3
-"""Prints the markdown table of seeded changes from /verif/seeded/*/meta.json."""
-import json, glob, os
+"""Prints the markdown table of seeded changes from /verif/seeded/*/meta.json.
+usage: seeded_table.py [substring]   (e.g. -r2- for the second round; rows whose name contains it)"""
+import json, glob, os, sys
+flt = sys.argv[1] if len(sys.argv) > 1 else None
 rows=[]
 for d in sorted(glob.glob('/verif/seeded/*')):
-    m=json.load(open(d+'/meta.json'))
     name=os.path.basename(d)
+    if flt is not None and flt not in name: continue
+    if flt is None and '-r' in name: continue
+    m=json.load(open(d+'/meta.json'))
     res=[]
     for k,v in m.get('checks',{}).items():
         res.append(f"{k}: {v['verdict']} ({v['seconds']} s)")
+    before=m.get('checks_before_strengthening')
+    b=''
+    if before is not None:
+        b='; '.join(f"{k}: {v['verdict']}" for k,v in before.items())
     sigs=[s.split('signature=')[-1] for v in m.get('checks',{}).values() for s in v.get('signatures',[])][:2]
-    rows.append(f"| {name} | {m.get('summary','').replace('|','/')} | {m.get('needs_to_manifest','').replace('|','/')[:220]} | {'; '.join(res)} | {'; '.join(sigs)[:160]} |")
-print("| change | what was changed | what it needs to manifest | result | reported as |\n|---|---|---|---|---|")
+    cols=[name, m.get('summary','').replace('|','/'), m.get('needs_to_manifest','').replace('|','/')[:220]]
+    if flt is not None: cols.append(b or 'caught')
+    cols += ['; '.join(res), '; '.join(sigs)[:160]]
+    rows.append('| '+' | '.join(cols)+' |')
+if flt is None:
+    print("| change | what was changed | what it needs to manifest | result | reported as |\n|---|---|---|---|---|")
+else:
+    print("| change | what was changed | what it needs to manifest | as first run | after strengthening | reported as |\n|---|---|---|---|---|---|")
 print("\n".join(rows))
